@@ -36,7 +36,7 @@ def config_writers(ctx, rid: str) -> None:
     fs = p.method("BaseInterpreter", "from_snapshot")
     allowed_roles[fs.qualname] = ("restore", {"call:clear", "call:add"})
     tr = p.func("helpers:transition")
-    allowed_roles[tr.qualname] = ("pure-restore", {"call:clear", "call:add"})
+    allowed_roles[tr.qualname] = ("pure-restore", {"call:clear", "call:add", "call:update"})
 
     writes: List[Write] = []
     for f in p.all_funcs:
